@@ -201,6 +201,42 @@ def GridSpec.webTiles (fl : Rnd) (P : Rat) (zoom : Int) (npix : Int) : Res GridS
   let y := P
   GridSpec.fromSampleTile fl (boxBounds x (fl (y - tsz)) (fl (x + tsz)) y) npix npix 0 0 false true
 
+/-! ### the caller-supplied `geobox_cache` (state carried across queries) -/
+
+/-- `geobox_cache`: a dict `tile_index → GeoBox`, newest entry first -/
+abbrev Cache := List ((Int × Int) × GeoBox)
+
+/-- the local `geobox(tile_index)` of `GridSpec.tiles` with a cache:
+    `gbox = cache.get(idx)`; if `None`: `gbox = self.tile_geobox(idx); cache[idx] = gbox`. -/
+def GridSpec.geoboxC (fl : Rnd) (g : GridSpec) (c : Cache) (k : Int × Int) : GeoBox × Cache :=
+  match c.lookup k with
+  | some gb => (gb, c)
+  | none => (g.tileGeobox fl k, (k, g.tileGeobox fl k) :: c)
+
+/-- consuming the generator over the index list `ks`, threading the cache -/
+def GridSpec.tilesGo (fl : Rnd) (g : GridSpec) : List (Int × Int) → Cache → List ((Int × Int) × GeoBox) × Cache
+  | [], c => ([], c)
+  | k :: ks, c =>
+    let r := g.geoboxC fl c k
+    let rest := GridSpec.tilesGo fl g ks r.2
+    ((k, r.1) :: rest.1, rest.2)
+
+/-- `list(GridSpec.tiles(bounds, geobox_cache))`: yielded `(index, geobox)` pairs and the cache afterwards -/
+def GridSpec.tilesC (fl : Rnd) (tol : Rat) (g : GridSpec) (q : BBox) (c : Cache) :
+    List ((Int × Int) × GeoBox) × Cache :=
+  g.tilesGo fl (g.tiles fl tol q) c
+
+/-- `list(GridSpec.tiles_from_geopolygon(poly, geobox_cache))`: every tile of the polygon's bounding box goes
+    through the cache; the disjointness test is applied to the geobox that came out of the cache. -/
+def GridSpec.tilesFromPolygonC (fl : Rnd) (tol : Rat) (g : GridSpec) (q : BBox) (disjoint : GeoBox → Bool)
+    (c : Cache) : List ((Int × Int) × GeoBox) × Cache :=
+  let r := g.tilesC fl tol q c
+  (r.1.filter (fun e => !disjoint e.2), r.2)
+
+/-- every cached geobox is the geobox of its key (what a cache filled only by this grid satisfies) -/
+def GridSpec.Coherent (fl : Rnd) (g : GridSpec) (c : Cache) : Prop :=
+  ∀ k gb, c.lookup k = some gb → gb = g.tileGeobox fl k
+
 /-! ### Vocabulary of the theorems (propositions, not code) -/
 
 /-- closed rectangle -/
